@@ -13,6 +13,8 @@ CONSTANTS
   RenderClasses <- C4Render
   Mro <- MCMro
   StatusOf <- MCStatus
+  OwnVary <- MCOwnVary
+  MaxReqs = 2
   WrongDesign = "none"
   MaxFaults = 1
 INVARIANT TypeOK
